@@ -210,7 +210,7 @@ theorem mergeDef_spec (X : List TypeDef) (t : TypeDef) :
 
 /-! ### the link: extending a built type = building the merged definition -/
 
-private theorem ok_inj {α} {a b : α} (h : (Except.ok a : R α) = .ok b) : a = b := by cases h; rfl
+theorem ok_inj {α} {a b : α} (h : (Except.ok a : R α) = .ok b) : a = b := by cases h; rfl
 
 theorem link_interface (env : Env) (X : List TypeDef) (t : TypeDef) (bt r : TypeD) (hkk : t.kind = .interface)
     (hb : buildTypeDef env t = .ok bt) (hm : buildTypeDef env (mergeDef X t) = .ok r)
@@ -496,6 +496,33 @@ structure ValidExt (doc : Doc) (d : SchemaD) (bts : List TypeD) : Prop where
   rootsOk : ∃ r0, buildRoots (Env.of (typeDefs doc)) (schemaDefs doc).head? bts = .ok r0 ∧
       (schemaExtensions doc).foldlM (fun r se => addOps (fun n => isDefaultName n || d.types.any (·.name == n)) (.lib .ext) r se.ops) r0
         = .ok ⟨d.query, d.mutation, d.subscription⟩
+
+/-- extending the built definitions with the document's extensions gives exactly the built merged definitions
+    (the registry-level form of `extend_build_merge`) -/
+theorem ext_types (doc : Doc) (d : SchemaD) (bts : List TypeD)
+    (uniqueTypes : ((typeDefs doc).map (·.name)).Nodup)
+    (extTargets : ∀ e ∈ typeExts doc, ∃ t ∈ typeDefs doc, t.name = e.name ∧ t.kind = e.kind)
+    (declares : Declared doc = some d)
+    (baseBuilds : (typeDefs doc).mapM (buildTypeDef (Env.of (typeDefs doc))) = .ok bts)
+    (mergedSame : ∀ t ∈ typeDefs doc, buildTypeDef (Env.of (typeDefs doc)) (mergeDef (typeExts doc) t)
+                                    = buildTypeDef (Env.of (merged doc)) (mergeDef (typeExts doc) t))
+    (membersUnique : ∀ r ∈ d.types, (r.fields.map (·.name)).Nodup ∧ (r.inputFields.map (·.name)).Nodup ∧ (r.values.map (·.name)).Nodup ∧
+      r.members.Nodup ∧ r.interfaces.Nodup) :
+    bts.mapM (extendType (Env.of (typeDefs doc)) (typeExts doc)) = .ok d.types := by
+  obtain ⟨hts, _, _⟩ := declared_parts doc d declares
+  have hP := mapM_forall₂ _ _ _ baseBuilds
+  have hQ : All₂ (fun t r => buildTypeDef (Env.of (typeDefs doc)) (mergeDef (typeExts doc) t) = .ok r) (typeDefs doc) d.types := by
+    have h1 : (typeDefs doc).mapM (fun t => buildTypeDef (Env.of (typeDefs doc)) (mergeDef (typeExts doc) t)) = .ok d.types := by
+      rw [mapM_congr_mem _ (fun t => buildTypeDef (Env.of (merged doc)) (mergeDef (typeExts doc) t)) _ mergedSame]
+      rw [← mapM_map_eq]; exact hts
+    exact mapM_forall₂ _ _ _ h1
+  refine mapM_link _ _ _ _ _ _ hP hQ ?_
+  intro t bt r ht hr hb hm
+  refine extend_build_merge _ _ t bt r hb hm ?_ (membersUnique r hr)
+  intro e he hne
+  obtain ⟨t', ht', hn', hk'⟩ := extTargets e he
+  have : t' = t := nodup_map_inj (·.name) _ uniqueTypes t' ht' t ht (hn'.trans hne)
+  rw [← hk', this]
 
 /-- **build_exact_partial**: a valid document WITH extensions in which no default value depends on an
     extension-declared member (finding S8 excluded) builds, and the schema is exactly the declared content: every
